@@ -40,6 +40,7 @@ func runC08(c *core.Ctx) {
 	c08R3(c)
 	foldKeyRule(c, "C08.R4", 5)
 	c08R5(c)
+	c02R9(c, "C08.R6")
 }
 
 func c08R1(c *core.Ctx) { c08R1as(c, "C08.R1") }
